@@ -26,10 +26,15 @@ type scn struct {
 	echo     bool
 	maxChunk int
 	env      int
+	selfcl   bool // the user asked for self-closing tags in requests (rewrites each request before it is framed)
 }
 
 func (s scn) name() string {
-	return fmt.Sprintf("adv=%d/pref=%s/layout=%s/extra=%s/sid=%s/echo=%v/chunk=%d/env=%d", s.adv, s.pref, s.layout, s.extra, s.sid, s.echo, s.maxChunk, s.env)
+	n := fmt.Sprintf("adv=%d/pref=%s/layout=%s/extra=%s/sid=%s/echo=%v/chunk=%d/env=%d", s.adv, s.pref, s.layout, s.extra, s.sid, s.echo, s.maxChunk, s.env)
+	if s.selfcl {
+		n += "/self-closing"
+	}
+	return n
 }
 
 var manyCaps = []string{
@@ -179,6 +184,9 @@ func scenario(s scn) sched.Scenario {
 				if s.pref != "" {
 					opts = append(opts, options.WithNetconfPreferredVersion(s.pref))
 				}
+				if s.selfcl {
+					opts = append(opts, options.WithNetconfForceSelfClosingTags())
+				}
 				d, err := netconf.NewDriver("dev", opts...)
 				if err != nil {
 					openErr = err
@@ -303,10 +311,20 @@ func scenarios(tier string) []sched.Scenario {
 								if mc == 0 && extra != "many" && (tier == "thorough" || (sid != "1" && !echo)) {
 									env = 1
 								}
-								out = append(out, scenario(scn{adv, pref, lay, extra, sid, echo, mc, env}))
+								out = append(out, scenario(scn{adv, pref, lay, extra, sid, echo, mc, env, false}))
 							}
 						}
 					}
+				}
+			}
+		}
+	}
+	// requests rewritten to self-closing tags: still framed as negotiated
+	for adv := 1; adv < 4; adv++ {
+		for _, pref := range []string{"", "1.0", "1.1"} {
+			for _, echo := range []bool{false, true} {
+				for _, mc := range []int{0, 1} {
+					out = append(out, scenario(scn{adv, pref, "compact", "none", "1", echo, mc, 1 - mc, true}))
 				}
 			}
 		}
@@ -315,7 +333,7 @@ func scenarios(tier string) []sched.Scenario {
 	for _, lay := range []string{"nothello", "nocaps"} {
 		for _, pref := range []string{"", "1.0", "1.1"} {
 			for _, echo := range []bool{false, true} {
-				out = append(out, scenario(scn{3, pref, lay, "none", "5", echo, 0, 1}))
+				out = append(out, scenario(scn{3, pref, lay, "none", "5", echo, 0, 1, false}))
 			}
 		}
 	}
@@ -326,7 +344,7 @@ func TestCheck(t *testing.T) {
 	sched.Main(t, sched.Check{
 		ID:          "C09",
 		Level:       "exploration",
-		Rule:        "exhaustive product: advertised subset of {base:1.0, base:1.1} x preferred {none,1.0,1.1} x hello layout {compact, pretty, padded capability text, nc: prefix, XML declaration, banner first, line feed after the delimiter} x extra capabilities {none, 15, one with &amp;, none with base:1.1 listed first} x session-id {absent, 1, 4294967295} x echo x read preset {whole, 1, 7 bytes} (+ every single extra cut/hold on the whole-message preset), plus non-hello first message and hello without capabilities; each cell = Open + Get on the real driver against the server model; distinct = distinct (cell, schedule, observation)",
+		Rule:        "exhaustive product: advertised subset of {base:1.0, base:1.1} x preferred {none,1.0,1.1} x hello layout {compact, pretty, padded capability text, nc: prefix, XML declaration, banner first, line feed after the delimiter} x extra capabilities {none, 15, one with &amp;, none with base:1.1 listed first} x session-id {absent, 1, 4294967295} x echo x read preset {whole, 1, 7 bytes} (+ every single extra cut/hold on the whole-message preset), plus non-hello first message, hello without capabilities, and sessions whose requests are rewritten to self-closing tags; each cell = Open + Get on the real driver against the server model; distinct = distinct (cell, schedule, observation)",
 		Assumptions: []string{"capability text compared after trimming whitespace; XML-escaped text accepted as equal to its unescaped form", "silence instead of a hello is C05's case"},
 		Scenarios:   scenarios,
 		Budget:      map[string]time.Duration{"quick": 5 * time.Minute, "thorough": 30 * time.Minute},
